@@ -117,7 +117,8 @@ def main():
                 c.violation(key, f"{op} of {l['t']} and {(rr or {}).get('t')}: result dimension {got}, expected {want}", repl)
             mk = [v["m"][0] for v in (l, rr) if v and v["t"] in ("num", "qty")]
             positive = l and l["t"] == "qty" and len(l["m"]) == 3 and int(l["m"][1]) > 0
-            if "dec" in mk and res["m"][0] != "dec" and (op != "root" or positive):
+            # degree 0 is not a root: x.root(0) is the constant 1*One by convention (outside the property)
+            if "dec" in mk and res["m"][0] != "dec" and (op != "root" or (positive and case["r"] != 0)):
                 c.violation(f"decimal:{op}", f"{op} with a Decimal operand returned a {res['m'][0]} magnitude", repl)
             if op in ("add", "sub") and res["u"]["o"] != l["u"]["o"]:
                 c.violation(f"leftunit:{op}", f"{op} did not return the left operand's unit", repl)
